@@ -202,7 +202,8 @@ SLOW = {"local_vulnerability": 14, "local_distance_weighted_vulnerability": 14,
         "vertex_current_flow_betweenness": 20, "effective_resistance": 20}
 # tolerances (relative; atol = rtol * max|value|)
 TOL_BY_NAME = [
-    (re.compile(r"eigenvector_centrality"), 1e-6, "ARPACK eigsh(tol=1e-8)"),
+    (re.compile(r"eigenvector_centrality"), 1e-4, "ARPACK eigsh(tol=1e-8) in shift-invert mode with "
+     "sigma=N**2: eigenvector error <~ 1e-8*N/relative spectral gap; run only when the gap >= 3e-3"),
     (re.compile(r"pagerank|msf_synchronizability"), 1e-7, "iterative / dense eigen solver"),
     (re.compile(r"arenas_betweenness|newman_betweenness"), 1e-7, "sparse LU / inverse"),
     (re.compile(r"current_flow_betweenness"), 1e-4, "float32 kernels on the pseudo-inverse"),
@@ -392,20 +393,30 @@ def normalise(r):
         return repr(r)
 
 
-def applicable(call, inp, N, connected):
+def spectral_gap(M):
+    """Relative gap between the two largest eigenvalues of a symmetric matrix (dense, LAPACK)."""
+    ev = np.linalg.eigvalsh(np.asarray(M, dtype=float))
+    if len(ev) < 2 or ev[-1] <= 0:
+        return 0.0
+    return float((ev[-1] - ev[-2]) / ev[-1])
+
+
+def applicable(call, inp, N, connected, gaps=None):
     if call.method in UNDIRECTED_ONLY and inp.get("directed"):
         return False
     if call.method in CONNECTED_ONLY and not connected:
+        return False
+    if call.method in CONNECTED_ONLY and gaps is not None and gaps.get(call.method, 1.0) < 3e-3:
         return False
     if call.method in SLOW and N > SLOW[call.method]:
         return False
     return True
 
 
-def evaluate(obj, inp, calls, N, connected):
+def evaluate(obj, inp, calls, N, connected, gaps=None):
     out = {}
     for c in calls:
-        if not applicable(c, inp, N, connected):
+        if not applicable(c, inp, N, connected, gaps):
             continue
         try:
             with quiet():
@@ -524,6 +535,30 @@ def classify(c, cls_name, inp, connected):
     return "relabel-directed" if inp.get("directed") else "relabel"
 
 
+NSI_HISTOGRAMS = ("nsi_degree_histogram", "nsi_degree_cumulative_histogram")
+
+
+def on_bin_edge(obj0, c):
+    """Guard used only after a mismatch of an n.s.i. degree histogram: is a value of the binned
+    sequence (float sums, whose last bits depend on the summation order) on an interior bin edge, or
+    k_max/k_min on an integer (the bin count int(k_max/k_min)+1 jumps there)?  Then the histogram is
+    discontinuous at this input and the mismatch says nothing about numbering."""
+    try:
+        kw = {k: f(obj0, None) for k, f in c.kw}
+        with quiet():
+            k = np.array(obj0.nsi_degree(**kw), dtype=float)
+        ratio = k.max() / k.min()
+        if abs(ratio - round(ratio)) < 1e-6:
+            return True
+        edges = np.linspace(k.min(), k.max(), int(ratio) + 2)[1:-1]
+        scale = max(1.0, float(np.abs(k).max()))
+        return bool((np.abs(k[:, None] - edges[None, :]) < 1e-9 * scale).any())
+    except BaseException as e:
+        if isinstance(e, KeyboardInterrupt):
+            raise
+        return False
+
+
 _PLANS = {}
 
 
@@ -544,7 +579,13 @@ def run_group(group):
         obj0 = build(inp)
     A0 = np.array(obj0.adjacency) if hasattr(obj0, "adjacency") else np.ones((N, N))
     connected = is_connected(A0)
-    base = evaluate(obj0, inp, calls, N, connected)
+    gaps = None
+    if connected and not inp.get("directed") and hasattr(obj0, "node_weights") and N <= 64:
+        sw = np.sqrt(np.array(obj0.node_weights, dtype=float))
+        gaps = {"eigenvector_centrality": spectral_gap(A0),
+                "nsi_eigenvector_centrality": spectral_gap(sw[:, None] * (A0 + np.eye(N)) * sw[None, :])}
+    base = evaluate(obj0, inp, calls, N, connected, gaps)
+    res["edge"] = 0
     nontrivial_graph = bool(A0.sum() > 0)
     for perm in group["perms"]:
         perm = [int(x) for x in perm]
@@ -555,7 +596,7 @@ def run_group(group):
         inp1 = relabel(inp, perm)
         with quiet():
             obj1 = build(inp1)
-        got = evaluate(obj1, inp1, calls, N, connected)
+        got = evaluate(obj1, inp1, calls, N, connected, gaps)
         p = np.array(perm)
         for c in calls:
             if c.name not in base:
@@ -564,6 +605,9 @@ def run_group(group):
             res["names"].add(c.name)
             msg = compare(base[c.name], got[c.name], p, N, bool(FORCE_GLOBAL.search(c.method)),
                           tolerance(cls_name, c.owner, c.method), edges=(c.method == "edge_list"))
+            if msg is not None and c.method in NSI_HISTOGRAMS and on_bin_edge(obj0, c):
+                res["edge"] += 1
+                continue
             if msg is not None:
                 clause = classify(c, cls_name, inp, connected)
                 if isinstance(base[c.name], Exc) != isinstance(got[c.name], Exc):
@@ -843,11 +887,11 @@ def _work(chunk):
     for group in chunk:
         try:
             r = run_group(group)
-            out.append((r["evals"], r["failures"], sorted(r["names"]), r["cases"], None))
+            out.append((r["evals"], r["failures"], sorted(r["names"]), r["cases"], None, r.get("edge", 0)))
         except BaseException as e:
             if isinstance(e, KeyboardInterrupt):
                 raise
-            out.append((0, [], [], [], "%s: %s" % (group["inp"]["cls"], traceback.format_exc()[-900:])))
+            out.append((0, [], [], [], "%s: %s" % (group["inp"]["cls"], traceback.format_exc()[-900:]), 0))
     return out
 
 
@@ -970,8 +1014,10 @@ def main():
     names = {}
     herr = []
     allfail = []
+    nedge = 0
     for chunk, outs in zip(chunks, results):
-        for group, (evals, failures, nm, cases, err) in zip(chunk, outs):
+        for group, (evals, failures, nm, cases, err, edge) in zip(chunk, outs):
+            nedge += edge
             if err:
                 herr.append(err)
                 continue
@@ -992,6 +1038,9 @@ def main():
             allfail.append(("coverage/never-evaluated", {"class": cls_name, "measures": missing},
                             "discovered but never evaluated: %s %s" % (cls_name, missing)))
     emit_failures(rep, allfail)
+    if nedge:
+        rep.skip("%d n.s.i. degree histogram comparisons left out: a value on a bin edge / k_max/k_min on "
+                 "an integer (see on_bin_edge)" % nedge)
     if herr:
         sys.stderr.write(herr[0] + "\n")
         rep.failures.insert(0, {"check": "harness/error", "witness": {"n": len(herr)}, "detail": herr[0][-600:]})
